@@ -2,7 +2,7 @@
 """Runs the registered checks against every kept seeded defect (scratch copy of /repo with the patch applied; /repo untouched).
 usage: run_seeds.py [seed-id-prefix] [--all-props]   prints which checks raise a VIOLATION for which seed."""
 import json, os, shutil, subprocess, sys, tempfile
-V = "/verif"
+V = __import__("os").path.dirname(__import__("os").path.dirname(__import__("os").path.abspath(__file__)))
 sys.path.insert(0, V + "/engine/rules")
 import selftest
 pref = sys.argv[1] if len(sys.argv) > 1 and not sys.argv[1].startswith("--") else ""
